@@ -1,7 +1,11 @@
 //! Shared wrappers over the five stream-cipher context types (+ the portable engine, hook H3).
 
 use crate::model::chacha::Family;
+#[cfg(feature = "hooks")]
 use cryptoxide::chacha::verif::{ActiveEngine, PortableEngine};
+
+/// false when the simulator was built without /repo's verif-hooks feature (fallback build: /repo does not compile with it)
+pub const HOOKS: bool = cfg!(feature = "hooks");
 use cryptoxide::chacha20::{ChaCha, ChaChaOriginal, XChaCha};
 use cryptoxide::salsa20::{Salsa, XSalsa};
 
@@ -17,8 +21,8 @@ pub trait StreamObj {
     fn set_counter64(&mut self, _n: u64) {
         unreachable!()
     }
-    /// hook: block counter of the next block to generate
-    fn counter(&self) -> u64;
+    /// hook: block counter of the next block to generate (None: built without hooks)
+    fn counter(&self) -> Option<u64>;
 }
 
 macro_rules! seekable {
@@ -37,8 +41,13 @@ macro_rules! seekable {
             fn seek(&mut self, n: u32) {
                 self.0.seek(n)
             }
-            fn counter(&self) -> u64 {
-                self.0.verif_block_counter() as u64
+            #[cfg(feature = "hooks")]
+            fn counter(&self) -> Option<u64> {
+                Some(self.0.verif_block_counter() as u64)
+            }
+            #[cfg(not(feature = "hooks"))]
+            fn counter(&self) -> Option<u64> {
+                None
             }
         }
     };
@@ -56,11 +65,17 @@ macro_rules! hooked {
             fn fork(&self) -> Box<dyn StreamObj> {
                 Box::new($w::<R>(self.0.clone()))
             }
+            #[cfg(feature = "hooks")]
             fn set_counter64(&mut self, n: u64) {
                 self.0.verif_set_block_counter(n)
             }
-            fn counter(&self) -> u64 {
-                self.0.verif_block_counter()
+            #[cfg(feature = "hooks")]
+            fn counter(&self) -> Option<u64> {
+                Some(self.0.verif_block_counter())
+            }
+            #[cfg(not(feature = "hooks"))]
+            fn counter(&self) -> Option<u64> {
+                None
             }
         }
     };
@@ -122,7 +137,9 @@ macro_rules! engine_impl {
         }
     };
 }
+#[cfg(feature = "hooks")]
 engine_impl!(PortableEngine);
+#[cfg(feature = "hooks")]
 engine_impl!(ActiveEngine);
 
 #[derive(Clone)]
@@ -193,12 +210,8 @@ impl<E: Engine + 'static> StreamObj for EngineStream<E> {
         self.state.e_set_counter64(n);
         self.offset = 64;
     }
-    fn counter(&self) -> u64 {
-        if self.wide {
-            self.state.e_counter64()
-        } else {
-            self.state.e_counter64() & 0xffff_ffff
-        }
+    fn counter(&self) -> Option<u64> {
+        Some(if self.wide { self.state.e_counter64() } else { self.state.e_counter64() & 0xffff_ffff })
     }
 }
 
@@ -234,6 +247,11 @@ pub const STREAM_VARIANTS: &[StreamVariant] = &[
 
 pub fn stream_variant(name: &str) -> Option<StreamVariant> {
     STREAM_VARIANTS.iter().copied().find(|v| v.name == name)
+}
+
+/// can this variant be exercised in this build? (engine variants and counter presets need the hooks)
+pub fn available(v: &StreamVariant) -> bool {
+    HOOKS || v.imp == Impl::Context
 }
 
 pub fn has_seek(v: &StreamVariant) -> bool {
@@ -293,6 +311,9 @@ pub fn make_stream(v: &StreamVariant, rounds: usize, key: &[u8], nonce: &[u8]) -
             }
             by_rounds!(mk)
         }
+        #[cfg(not(feature = "hooks"))]
+        (Impl::Portable, _) | (Impl::Active, _) => panic!("engine variants need the verif-hooks build"),
+        #[cfg(feature = "hooks")]
         (Impl::Portable, f) => {
             macro_rules! mk {
                 ($r:literal) => {
@@ -301,6 +322,7 @@ pub fn make_stream(v: &StreamVariant, rounds: usize, key: &[u8], nonce: &[u8]) -
             }
             by_rounds!(mk)
         }
+        #[cfg(feature = "hooks")]
         (Impl::Active, f) => {
             macro_rules! mk {
                 ($r:literal) => {
